@@ -141,6 +141,7 @@ def impl(case):
             bd = sx.rec(d["hist"])
             if "other" in d and d["other"] != "none": b = C.mk_ah(d["other"])
             else: b = C.mk_ah(d["hist"])
+            if rng.random() < 0.5: b.name = "src"; b.meta_data["custom"] = "x"      # operands with identical metadata
             a0, b0 = _snap(a), _snap(b)
             try:
                 r = _derive(a, b, d["deriv"], rng)
